@@ -803,6 +803,18 @@ TrGcFail ==
         /\ nviol' = nviol + Cardinality(V)
   /\ UNCHANGED <<ctx, saved, refObs>>
 
+(* C07 through WAL files: the real record writer over the real rolling writer, fillers up to `gap`  *)
+(* bytes before the end of a file, then entries (empty ones among them), read back by the real readers *)
+TrFilesRt ==
+  /\ R.ev = "filesrt"
+  /\ LET V == IF R.errors # 0 \/ R.read # R.wrote
+              THEN {<<"C07", "entries written through WAL files are not read back identical and in order (writer " \o
+                             ToString(R.gap) \o " bytes before the end of a file" \o (IF R.restart = 1 THEN ", writer re-created there" ELSE "") \o ")">>}
+              ELSE {}
+     IN /\ Report(V)
+        /\ nviol' = nviol + Cardinality(V)
+  /\ UNCHANGED <<ctx, saved, refObs>>
+
 TrPop ==
   /\ R.ev = "pop"
   /\ ctx' = saved
@@ -812,7 +824,7 @@ TrPop ==
 TraceNext ==
   /\ l <= NLines
   /\ l' = l + 1
-  /\ \/ TrRun \/ TrInit \/ TrBegin \/ TrEnd \/ TrCrash \/ TrPop \/ TrDamage \/ TrFault \/ TrName \/ TrDirHist \/ TrPair \/ TrPairCrash \/ TrFrames \/ TrExpect \/ TrCodec \/ TrObstacle \/ TrGcFail
+  /\ \/ TrRun \/ TrInit \/ TrBegin \/ TrEnd \/ TrCrash \/ TrPop \/ TrDamage \/ TrFault \/ TrName \/ TrDirHist \/ TrPair \/ TrPairCrash \/ TrFrames \/ TrExpect \/ TrCodec \/ TrObstacle \/ TrGcFail \/ TrFilesRt
 
 TraceInit ==
   /\ l = 1
